@@ -21,7 +21,7 @@ M = [
     ("C01-qr-unpermuted", ["C01"], "renormalizer/mps/symbolic_mpo.py", "r2 = r[:rank, np.argsort(p)]", "r2 = r[:rank, :]"),
     ("C01-complementary-factor", ["C01"], "renormalizer/mps/symbolic_mpo.py",
      "out_op = OpTuple(symbol, qn, factor=factor[non_red_one_col[i] - 1])", "out_op = OpTuple(symbol, qn, factor=1.0)"),
-    ("C01-intra-site-order", ["C01", "C15"], "renormalizer/model/op.py", "ops.append(Op.product(elem_ops))",
+    ("C01-intra-site-order", ["C01"], "renormalizer/model/op.py", "ops.append(Op.product(elem_ops))",
      "ops.append(Op.product(elem_ops[::-1]))"),
     ("C01-swap-not-swapped", ["C01"], "renormalizer/mps/symbolic_mpo.py",
      "row = [op.out_ops1_idx, op.site2_op_idx, op.site1_op_idx, n_primary_ops + i, 0]",
@@ -89,11 +89,11 @@ M = [
      "        for term_op in dict.fromkeys(terms):\n            for name in term_op.dofs:"),
     ("C13-tree-imag-time-in-place", ["C13"], "renormalizer/tn/tree.py", "            ttns = self.copy()\n", "            ttns = self\n"),
     ("C06-tree-2site-labels", ["C06", "C08"], "renormalizer/tn/tree.py", "            node.qn = self.qntot - msqn", "            node.qn = msqn"),
-    ("C08-tree-2site-m-ignored", ["C05", "C12"], "renormalizer/tn/tree.py", "            m_trunc = min(m_trunc, len(s))\n", "            m_trunc = len(s)\n"),
+    ("C08-tree-2site-m-ignored", ["C05"], "renormalizer/tn/tree.py", "            m_trunc = min(m_trunc, len(s))\n", "            m_trunc = len(s)\n"),
     ("C08-tree-hop2-parent-env", ["C08", "C12"], "renormalizer/tn/hop_expr.py",
      "    args.append(eparent.environ_parent)\n    args.append(ttne.get_parent_indices(eparent, ttns, ttno))",
      "    args.append(eparent.environ_parent * 1.01)\n    args.append(ttne.get_parent_indices(eparent, ttns, ttno))"),
-    ("C10-tree-aux-keeps-charge", ["C10", "C02"], "renormalizer/tn/treebase.py", "                    basis_q.sigmaqn = np.zeros_like(basis.sigmaqn)\n", "                    pass\n"),
+    ("C10-tree-aux-keeps-charge", ["C10"], "renormalizer/tn/treebase.py", "                    basis_q.sigmaqn = np.zeros_like(basis.sigmaqn)\n", "                    pass\n"),
     ("C10-tree-imag-sign", ["C10", "C12"], "renormalizer/tn/tree.py", "            coeff = 1\n            tau = tau.imag", "            coeff = 1\n            tau = -tau.imag"),
     ("C12-ps-backward-forward-order", ["C12"], "renormalizer/tn/time_evolution.py",
      "    local_steps2 = _tdvp_ps_backward(ttns, ttno, ttne, coeff, tau / 2)", "    local_steps2 = _tdvp_ps_forward(ttns, ttno, ttne, coeff, tau / 2)"),
